@@ -160,6 +160,9 @@ impl Prop for C03 {
             suspend: 5,
             child_remove: 3,
             heal: 3,
+            // with the parent synchronisations held back a key roll stays in its intermediate
+            // states (new key certified, old key not yet revoked) across checkpoints
+            hold_parent_syncs: 4,
             parent_remove: 2,
             ca_delete: 2,
             mapping: 6,
